@@ -44,7 +44,7 @@ def registry : List Entry := [
   mkEntryH "refcount" RefCount.model RefCount.Obs.parse [MonEntry.ofMonitor "C08" RefCount.monC08, MonEntry.ofMonitor "C09" RefCount.monC09],
   mkEntryH "refcount-consumers" RefCount.Cons.cmodel RefCount.Cons.CObs.parse [MonEntry.ofMonitor "C10" RefCount.Cons.monC10, MonEntry.ofMonitor "C08c" RefCount.Cons.monC08c, MonEntry.ofMonitor "C09c" RefCount.Cons.monC09c] (cap := 40000),
   mkEntryH "refcount-wrc" RefCount.Wrc.model RefCount.Wrc.Obs.parse [MonEntry.ofMonitor "C10w" RefCount.Wrc.monWrc],
-  mkEntryH "routine" Routine.model Routine.Obs.parse [MonEntry.ofMonitor "C04" Routine.monC04, MonEntry.ofMonitor "C05" Routine.monC05, MonEntry.ofMonitor "C14h" Routine.monC14h, MonEntry.ofMonitor "C14" Routine.monC14, MonEntry.ofMonitor "C14w" Routine.monC14w, MonEntry.ofMonitor "C14cb" Routine.monC14cb] (cap := 80000),
+  mkEntryH "routine" Routine.model Routine.Obs.parse [MonEntry.ofMonitor "C04" Routine.monC04, MonEntry.ofMonitor "C05" Routine.monC05, MonEntry.ofMonitor "C14h" Routine.monC14h, MonEntry.ofMonitor "C14" Routine.monC14, MonEntry.ofMonitor "C14w" Routine.monC14w, MonEntry.ofMonitor "C14cb" Routine.monC14cb, MonEntry.ofMonitor "C14rc" Routine.monC14rc] (cap := 80000),
   mkEntryH "keyed" Keyed.model Keyed.Obs.parse [MonEntry.ofMonitor "C06" Keyed.monC06, MonEntry.ofMonitor "C07" Keyed.monC07, MonEntry.ofMonitor "C07a" Keyed.monC07a, MonEntry.ofMonitor "C06o" Keyed.monC06o, MonEntry.ofMonitor "C07c" Keyed.monC07c, MonEntry.ofMonitor "C07b" Keyed.monC07b, MonEntry.ofMonitor "C07r" Keyed.monC07r] (cap := 20000),
   mkEntryH "promise" Promise.model Promise.Obs.parse Promise.promiseMons (cap := 50000),
   mkEntryH "once" Once.model Once.Obs.parse Once.onceMons (cap := 50000),
